@@ -3,7 +3,7 @@
     [run ft ops] = the state after the history [ops], any length, any
     operations; [ft] = the formula table of the case). *)
 From Coq Require Import List String Bool ZArith NArith.
-From MX Require Import Alive.Model Alive.ProofsRes Alive.ProofsStr Alive.ProofsDer Alive.ProofsStep Alive.ProofsTop Alive.ProofsInh.
+From MX Require Import Alive.Model Alive.ProofsRes Alive.ProofsStr Alive.ProofsDer Alive.ProofsStep Alive.ProofsTop Alive.ProofsInh Alive.ProofsAcyc Alive.ProofsNcc Alive.ProofsClos.
 Import ListNotations.
 
 (** C13_no_residue: after every history no container (cells / spaces /
@@ -64,30 +64,151 @@ Theorem C13_dead_handle_changes_nothing : forall st o, snd (step st o) = ODelete
 Proof. exact deleted_changes_nothing. Qed.
 Print Assumptions C13_dead_handle_changes_nothing.
 
-(** C13_alive_untouched, partial.  Full statement: deleting x kills nothing
-    outside its closure (x, what is inside x, the derived copies left without
-    definer, the ItemSpaces holding copies of what changed).  Proved: a model /
-    space / defined cells ([hard]) outside the deleted tree survives [del p.x]
-    (x a space), and every [hard] object other than c survives [del s.c] (c a
-    cells).  Missing: (1) for derived cells "killed only if no definer is left"
-    needs completeness of the fuelled ancestor computation ([ancs_of]; only
-    its soundness is proved), (2) the same statements for remove_bases. *)
-Theorem C13_alive_untouched_space_partial : forall st p x st' o v,
-  Inv st -> step_del_space st p x = (st', o) -> hard st v ->
-  ~ (v = x \/ In x (chain_of st v)) -> alive st' v = true.
-Proof. exact del_space_untouched. Qed.
-Print Assumptions C13_alive_untouched_space_partial.
-
-Theorem C13_alive_untouched_cells_partial : forall st s c st' v,
-  Inv st -> alive st s = true -> is_kind st KSpace s = true ->
-  step_del_cells st s c = (st', ODone) -> hard st v -> v <> c -> alive st' v = true.
-Proof. exact del_cells_untouched. Qed.
-Print Assumptions C13_alive_untouched_cells_partial.
-
-(** the invariant used above holds after every history *)
+(** the invariants: [Inv] (no residue, containment, base lists hold spaces,
+    derived cells have definers) and [Inv2] = [Inv] and the inheritance graph is
+    acyclic ([add_bases] rejects cycles) hold after every history *)
 Theorem C13_invariant : forall ft ops, Inv (run ft ops).
 Proof. exact inv_run. Qed.
 Print Assumptions C13_invariant.
+
+Theorem C13_invariant_acyclic : forall ft ops, Inv2 (run ft ops).
+Proof. exact inv2_run. Qed.
+Print Assumptions C13_invariant_acyclic.
+
+(** [Inv3] = [Inv], acyclic, and nothing is ever inside a cells ([Ncc]: no
+    containment chain passes through a cells) *)
+Theorem C13_invariant_full : forall ft ops, Inv3 (run ft ops).
+Proof. exact inv3_run. Qed.
+Print Assumptions C13_invariant_full.
+
+(** hence the fuelled ancestor computation of the model is exact (sound and
+    COMPLETE) in every reachable state: [anc] = transitive closure of the base
+    lists, [definer st T n c] = c is a live defined cells named n in a proper
+    ancestor of T *)
+Theorem C13_ancestors_exact : forall ft ops T A, In A (ancs_of (run ft ops) T) <-> anc (run ft ops) T A.
+Proof. exact ancs_of_exact. Qed.
+Print Assumptions C13_ancestors_exact.
+
+Theorem C13_has_definer_exact : forall ft ops T n,
+  has_definer (run ft ops) T n = true <-> exists c, definer (run ft ops) T n c.
+Proof. exact has_definer_exact. Qed.
+Print Assumptions C13_has_definer_exact.
+
+(** C13_derived_survives_*: a live derived cells d of the space T, outside the
+    deleted tree, is alive after the deletion IF AND ONLY IF a proper ancestor
+    of T still defines its name - in the inheritance graph after the removal:
+    [without st x] = x and everything inside x cut out of every container and
+    base list, [cut_bases st s bs] = the edges s -> b (b in bs) removed.
+    Specification level ([definer], [anc]); no fuel.  (A definer of the state
+    before, reached through ancestors outside the deleted tree, is such a
+    definer: [definer_left] in Alive/ProofsClos.v.) *)
+Theorem C13_derived_survives_del_space : forall st p x st' o d T,
+  Inv2 st -> step_del_space st p x = (st', o) ->
+  alive st d = true -> is_derived st d = true -> parent_of st d = Some T ->
+  ~ (d = x \/ In x (chain_of st d)) ->
+  (alive st' d = true <-> exists c, definer (without st x) T (name_of st d) c).
+Proof. exact del_space_derived_iff. Qed.
+Print Assumptions C13_derived_survives_del_space.
+
+Theorem C13_derived_survives_del_cells : forall st s c st' d T,
+  Inv2 st -> step_del_cells st s c = (st', ODone) ->
+  alive st d = true -> is_derived st d = true -> parent_of st d = Some T ->
+  (alive st' d = true <-> exists c', definer (without st c) T (name_of st d) c').
+Proof. exact del_cells_derived_iff. Qed.
+Print Assumptions C13_derived_survives_del_cells.
+
+Theorem C13_derived_survives_remove_bases : forall st s bs st' d T,
+  Inv2 st -> step_remove_bases st s bs = (st', ODone) ->
+  alive st d = true -> is_derived st d = true -> parent_of st d = Some T ->
+  (alive st' d = true <-> exists c, definer (cut_bases st s bs) T (name_of st d) c).
+Proof. exact remove_bases_derived_iff. Qed.
+Print Assumptions C13_derived_survives_remove_bases.
+
+(** C13_alive_untouched_*: an operation kills nothing outside its closure.
+    Whatever object v (of any kind) was alive before and is dead afterwards
+      (1) is the deleted object or is inside it, or
+      (2) is a derived cells left without definer ([undefined_in G v T]: v is
+          a live derived cells of T and no proper ancestor of T defines its
+          name in the graph G after the removal), or
+      (3) is, or is inside, an ItemSpace r that holds a dynamic copy of a space
+          W ([dyn_roots st W], in the state before; [dyn_roots_spec]: r is the
+          nearest ItemSpace around a live ItemSpace / dynamic space built from
+          W) where W is the deleted space, a space the re-inheritance pass
+          visits (the edited space and its sub spaces; the sub spaces of the
+          spaces of the deleted tree), the parent that lost the member, or the
+          space of a derived cells of (2).
+    (3) is stated with the model's own sets [dyn_roots] / [subs_of]; the
+    converse of (3) - these ItemSpaces do die - is C13_reinherit_* below, the
+    converse of (2) is C13_derived_survives_*, of (1) C13_dead. *)
+Theorem C13_alive_untouched_space : forall st p x st' o v,
+  Inv3 st -> step_del_space st p x = (st', o) -> alive st v = true -> alive st' v = false ->
+  (v = x \/ In x (chain_of st v))
+  \/ (exists T, undefined_in (without st x) v T)
+  \/ (exists r W, (r = v \/ In r (chain_of st v)) /\ In r (dyn_roots st W) /\
+        (W = x
+         \/ (exists y, In y (under_set st [x]) /\ is_kind st KSpace y = true /\ In W (subs_of st y))
+         \/ (W = p /\ is_kind st KSpace p = true)
+         \/ exists d, undefined_in (without st x) d W)).
+Proof. exact del_space_closure_sharp. Qed.
+Print Assumptions C13_alive_untouched_space.
+
+Theorem C13_alive_untouched_cells : forall st s c st' v,
+  Inv3 st -> step_del_cells st s c = (st', ODone) -> alive st v = true -> alive st' v = false ->
+  v = c
+  \/ (exists T, undefined_in (without st c) v T)
+  \/ (exists r W, (r = v \/ In r (chain_of st v)) /\ In r (dyn_roots st W) /\
+        (In W (s :: subs_of st s) \/ exists d, undefined_in (without st c) d W)).
+Proof. exact del_cells_closure_sharp. Qed.
+Print Assumptions C13_alive_untouched_cells.
+
+Theorem C13_alive_untouched_remove_bases : forall st s bs st' v,
+  Inv3 st -> step_remove_bases st s bs = (st', ODone) -> alive st v = true -> alive st' v = false ->
+  (exists T, undefined_in (cut_bases st s bs) v T)
+  \/ (exists r W, (r = v \/ In r (chain_of st v)) /\ In r (dyn_roots st W) /\
+        (In W (s :: subs_of st s) \/ exists d, undefined_in (cut_bases st s bs) d W)).
+Proof. exact remove_bases_closure_sharp. Qed.
+Print Assumptions C13_alive_untouched_remove_bases.
+
+(** what [dyn_roots st W] holds: r is the nearest ItemSpace around (or is) a
+    live ItemSpace or dynamic space e built as a copy of W *)
+Theorem C13_dyn_roots_spec : forall st W r, In r (dyn_roots st W) <-> holds_copy st r W.
+Proof. exact dyn_roots_spec. Qed.
+Print Assumptions C13_dyn_roots_spec.
+
+(** the re-inheritance pass after [add_bases] (the sub spaces are taken in the
+    graph with the new edges, [paste_bases]) kills ItemSpaces only *)
+Theorem C13_alive_untouched_add_bases : forall st s bs st' v,
+  Inv st -> step_add_bases st s bs = (st', ODone) -> alive st v = true -> alive st' v = false ->
+  exists r W, (r = v \/ In r (chain_of st v)) /\ In r (dyn_roots st W)
+              /\ In W (s :: subs_of (paste_bases st s bs) s).
+Proof. exact add_bases_closure. Qed.
+Print Assumptions C13_alive_untouched_add_bases.
+
+(** in particular: a model / space / defined cells ([hard]) outside the deleted
+    tree survives [del p.x], every one other than c survives [del s.c], all
+    survive [remove_bases]; every static object (derived cells too) survives [add_bases] *)
+Theorem C13_hard_untouched_space : forall st p x st' o v,
+  Inv st -> step_del_space st p x = (st', o) -> hard st v ->
+  ~ (v = x \/ In x (chain_of st v)) -> alive st' v = true.
+Proof. exact del_space_untouched. Qed.
+Print Assumptions C13_hard_untouched_space.
+
+Theorem C13_hard_untouched_cells : forall st s c st' v,
+  Inv st -> alive st s = true -> is_kind st KSpace s = true ->
+  step_del_cells st s c = (st', ODone) -> hard st v -> v <> c -> alive st' v = true.
+Proof. exact del_cells_untouched. Qed.
+Print Assumptions C13_hard_untouched_cells.
+
+Theorem C13_hard_untouched_remove_bases : forall st s bs st' v,
+  Inv st -> step_remove_bases st s bs = (st', ODone) -> hard st v -> alive st' v = true.
+Proof. exact remove_bases_untouched. Qed.
+Print Assumptions C13_hard_untouched_remove_bases.
+
+Theorem C13_static_untouched_add_bases : forall st s bs st' v,
+  Inv st -> step_add_bases st s bs = (st', ODone) -> alive st v = true ->
+  statick (kind_of st v) = true -> alive st' v = true.
+Proof. exact add_bases_untouched. Qed.
+Print Assumptions C13_static_untouched_add_bases.
 
 (** C13_reinherit_*: indirect deletion through a re-inheritance pass.  Every space T
     the pass visits (the edited space s and its sub spaces; for [del p.x], x a
